@@ -14,10 +14,7 @@ Local Open Scope Z_scope.
 Inductive dsl_abort :=
 | DaFuel        (* a while/for loop exceeded the loop budget L *)
 | DaDomain      (* outside the modelled/exact domain (inexact number, unmodelled conversion ...) *)
-| DaCycle       (* a container reachable from itself is passed to a structural traversal: the code recurses without bound (F-C15-a) *)
-| DaCrashNull   (* [non-empty array] - null: null Array::Ptr dereferenced in operator- (F-C15-b) *)
-| DaCrashIter   (* Array#map/filter/any/all: callback resized the array being iterated (F-C15-c) *)
-| DaCrashFpe.   (* a % b with 0 < |b| < 1 (or INT_MIN % -1): integer division trap (F-C15-d) *)
+| DaCycle       (* a container reachable from itself is passed to a structural traversal: the code recurses without bound (F-C15-a) *).
 
 (* script error kinds (all are "ScriptError" to a program: try/except cannot tell them apart) *)
 Inductive dsl_errkind := DkType | DkName | DkRange | DkStack | DkUser | DkArg.
